@@ -15,7 +15,8 @@ for p in props:
         na.append({"property_id": pid, "reason": NA_REASONS.get(pid, "no Coq model/check has been built for this property yet (see DESIGN.md section 6 for the intended design); not claimed")})
         continue
     m = importlib.import_module("harness.props.%s" % pid.lower())
-    M = m.META
+    from harness import meta_ext
+    M = meta_ext.apply(pid, m.META)
     checks.append({
         "property_id": pid,
         "quick_cmd": "./check %s --tier quick" % pid,
